@@ -15,7 +15,7 @@ CLAIMED = {
 
  "C18": dict(
     text="For Base16, Base32hex and Base64: the encoders equal an independent RFC 4648 bit-level encoder, decode(encode(x)) == x, and the incremental decoders' final verdict (also when pushing on after errors, and with a too-small target) equals an independent reference decoder, for every octet string / every char sequence (full char range) up to the stated lengths; no panic, overflow or out-of-bounds access on any of them.",
-    note="Bounds: quick <= 6/5/3 octets and <= 8/9/5 chars (b64/b32/b16); thorough up to 9 octets and 12/16 chars. Longer texts are outside the claim (the decoder state is (buf, position mod group, padding flag), all reached within the bound - an argument, not a solver result). Decoder target is a harness-local element-wise builder (octseq::Array in the thorough tier). Non-zero trailing bits are don't-care (RFC 4648 3.5). SymbolConverter twins are not yet covered.",
+    note="Bounds: quick <= 6/5/3 octets and <= 8/9/5 chars (b64/b32/b16); thorough up to 9 octets and 12/16 chars. Longer texts are outside the claim (the decoder state is (buf, position mod group, padding flag), all reached within the bound - an argument, not a solver result). Decoder target is a harness-local element-wise builder (octseq::Array in the thorough tier). Non-zero trailing bits are don't-care (RFC 4648 3.5). The scanner-facing SymbolConverter twins are checked against the same reference, symbol by symbol.",
     technique=KANI + "; differential against independent RFC 4648 reference encoder/decoder written in the harness crate",
     ref="DESIGN.md §4 C18"),
  "C03": dict(
@@ -34,7 +34,7 @@ CLAIMED = {
     technique=KANI + "; round trip + differential against an independent wire layout written in the harness",
     ref="DESIGN.md §4 C05"),
  "C02": dict(
-    text="Pointer fidelity of name compression is decided in two lemmas: (A) for every usize position, the static compressor and the hash compressor's entry constructor remember a position only if it fits a 14-bit pointer, and truncation forgets exactly the positions at or beyond the new length; (B) for two names with symbolic label content appended through StaticCompressor, an independent RFC 1035 reader reconstructs exactly the appended names and pointers are only emitted for equal suffixes. Builder bookkeeping (failed push leaves octets and counts untouched, push limit, rewind, stream length prefix) is a thorough-tier harness.",
+    text="Pointer fidelity of name compression is decided in two lemmas: (A) for every usize position, the static compressor and the hash compressor's entry constructor remember a position only if it fits a 14-bit pointer, and truncation forgets exactly the positions at or beyond the new length; (B) for two names with symbolic label content appended through StaticCompressor, an independent RFC 1035 reader reconstructs exactly the appended names and pointers are only emitted for equal suffixes. Builder bookkeeping in one-push scripts: a push under any push limit succeeds exactly when it fits and a failed push leaves octets and counts untouched; going back from the additional section to any earlier section resets the counts and the octets; each header count increment adds exactly one and refuses to overflow; header setters touch only their own bits. The multi-push script and the stream length prefix are thorough-tier harnesses.",
     note="A+B give fidelity at all offsets for the static compressor because its lookup does not depend on the absolute offset other than through the pointer encoding (argument, not solver result). TreeCompressor/HashCompressor beyond their position guards (hashbrown), BytesMut/Vec targets, op sequences longer than the scripted one, and messages beyond 72 octets are outside the claim. The builder-ops harness needs > 10 M SAT variables and may end 'not decided' (reported as inconclusive, never as pass).",
     technique=KANI + "; guard lemmas via cfg-guarded hooks + differential against an independent RFC 1035 name reader",
     ref="DESIGN.md §4 C02"),
@@ -54,8 +54,8 @@ CLAIMED = {
     technique=KANI + "; differential against an independent RFC 4034 4.1.2 bitmap reader",
     ref="DESIGN.md §4 C13"),
  "C01": dict(
-    text="The read-side kernels that CBMC can execute: ParsedName::skip (used by every section hop and record skip) accepts a name exactly when its uncompressed part is at most 255 octets and stops right behind it, for all four-label names up to the limit; the slice label iterator (Label::iter_slice) terminates on every 6-octet input from every start, stays fused after None, and never panics.",
-    note="Everything that goes through ParsedName::parse_ref - Question/record parsing, section iteration, canonical_name, is_answer, typed RDATA with names, display - is outside the claim: CBMC's symbolic execution of parse_ref's two nested loops does not finish even on 4 octets or on fully concrete input (measurements in DESIGN section 2), so two of the three known counterexamples of this property (ANCOUNT overflow in canonical_name, non-XFR question in the XFR interpreter) are not decided here. Typed RDATA parsing for name-free types is covered under C05.",
+    text="The read-side kernels that CBMC can execute: ParsedName::skip (used by every section hop and record skip) accepts a name exactly when its uncompressed part is at most 255 octets and stops right behind it, for all four-label names up to the limit; the slice label iterator (Label::iter_slice) terminates on every 6-octet input from every start, stays fused after None, and never panics; the message view accepts exactly octet strings of at least 12 octets and every header/flag/count accessor returns the RFC 1035 bit field of the header octets.",
+    note="Typed EDNS option parsing has a thorough-tier harness that runs out of memory (reported undecided). Everything that goes through ParsedName::parse_ref - Question/record parsing, section iteration, canonical_name, is_answer, typed RDATA with names, display - is outside the claim: CBMC's symbolic execution of parse_ref's two nested loops does not finish even on 4 octets or on fully concrete input (measurements in DESIGN section 2), so two of the three known counterexamples of this property (ANCOUNT overflow in canonical_name, non-XFR question in the XFR interpreter) are not decided here. Typed RDATA parsing for name-free types is covered under C05.",
     technique=KANI + "; termination via unwinding assertions with a pigeonhole bound, non-termination counterexamples replayed natively from the CBMC trace",
     ref="DESIGN.md §4 C01"),
  "C09": dict(
